@@ -96,8 +96,8 @@ StrValues(body) ==
 IsStr(out, v) == IsOne(out) /\ out.items[1].t = "s" /\ out.items[1].cp = v
 
 JoinKinds(ks) ==  \* fixed order
-  (IF "ch" \in ks THEN "ch" ELSE "") \o (IF "esc" \in ks THEN "+esc" ELSE "") \o (IF "uni" \in ks THEN "+uni" ELSE "")
-  \o (IF "lone" \in ks THEN "+lone" ELSE "") \o (IF "quote" \in ks THEN "+quote" ELSE "")
+  LET part(k) == IF k \in ks THEN "+" \o k ELSE ""
+  IN "kinds" \o part("ch") \o part("esc") \o part("uni") \o part("lone") \o part("quote")
 RECURSIVE EscCodes(_)
 EscCodes(ts) == IF ts = <<>> THEN {} ELSE (IF ts[1].k = "esc" THEN {ts[1].c} ELSE {}) \cup EscCodes(Tail(ts))
 RECURSIVE SetSig(_)
@@ -344,8 +344,35 @@ ProtoToExprs ==
   \cup {[ek |-> "Integer", expr |-> sg \o t] : sg \in {<<>>, <<cMinus>>}, t \in {D_(<<0>>), D_(<<1>>), D_(<<4, 2>>), D_(<<2, 1, 4, 7, 4, 8, 3, 6, 4, 7>>)}}
   \cup {[ek |-> "Quantity", expr |-> t] : t \in QuantityTexts}
 
+(* scalar elements: kind, and the value as a Boolean b, an integer i, or a text s (Quantity: s = value, code = unit) *)
+Scalar(ek, b, i, str, code) == [ek |-> ek, b |-> b, i |-> i, s |-> str, code |-> code]
+StringLikeKinds == {"String", "Uri", "Url", "Code", "Oid", "Id", "Uuid", "Markdown", "Canonical"}
+ScalarStrings == {<<>>, <<97, 98, 99>>, <<233, 39, 92, 34, 8364>>, <<32, 120, 32>>}
+ScalarDecimals == {D_(<<0>>), D_(<<1>>) \o <<cDot>> \o D_(<<5, 0>>), <<cMinus>> \o D_(<<0>>) \o <<cDot>> \o D_(<<0, 0, 1>>),
+                   D_(<<0, 0, 7>>), <<cMinus>> \o D_(<<4, 2>>)} \cup LongTexts \cup {<<cMinus>> \o t : t \in LongTexts}
+ScalarElements ==
+  {Scalar("Boolean", b, 0, <<>>, <<>>) : b \in BOOLEAN}
+  \cup {Scalar(k, FALSE, 0, str, <<>>) : k \in StringLikeKinds, str \in ScalarStrings}
+  \cup {Scalar("Integer", FALSE, i, <<>>, <<>>) : i \in {0, 1, -1, 2147483647, -2147483647, MinInt32}}
+  \cup {Scalar(k, FALSE, i, <<>>, <<>>) : k \in {"UnsignedInt", "PositiveInt"}, i \in {0, 1, 65536, 2147483647}}
+  \cup {Scalar("Decimal", FALSE, 0, str, <<>>) : str \in ScalarDecimals}
+  \cup {Scalar("Quantity", FALSE, 0, str, u) : str \in ScalarDecimals, u \in {UnitMg, <<>>, <<109, 109, 91, 72, 103, 93>>}}
+DecOfText(t) ==   \* value of [-]digits[.digits] as a Decimal item
+  LET neg == Len(t) > 0 /\ t[1] = cMinus
+      p == ParseNumber(IF neg THEN Tail(t) ELSE t)
+      d == NumAsDec(p.v)
+  IN DItem(IF neg THEN DNeg(d) ELSE d)
+SysOfScalar(el) ==
+  CASE el.ek = "Boolean" -> B(el.b)
+    [] el.ek \in StringLikeKinds -> S(el.s)
+    [] el.ek \in {"Integer", "UnsignedInt", "PositiveInt"} -> I(el.i)
+    [] el.ek = "Decimal" -> DecOfText(el.s)
+    [] el.ek = "Quantity" -> [t |-> "q", val |-> DecOfText(el.s), unit |-> el.code]
+ScalarId(el) == el.ek \o ":" \o (IF el.b THEN "t" ELSE "f") \o ToString(el.i) \o ":" \o CpsId(el.s) \o ":" \o CpsId(el.code)
+
 ProtoCases ==
-  {[kind |-> "proto-precision", id |-> "Pfrom:" \o ElId(el), sub |-> "from", el |-> el, canon |-> TemporalLit(SysOfEl(el))] : el \in Elements}
+  {[kind |-> "proto-precision", id |-> "Pscalar:" \o ScalarId(el), sub |-> "fromscalar", el |-> el] : el \in ScalarElements}
+  \cup {[kind |-> "proto-precision", id |-> "Pfrom:" \o ElId(el), sub |-> "from", el |-> el, canon |-> TemporalLit(SysOfEl(el))] : el \in Elements}
   \cup {[kind |-> "proto-precision", id |-> "Pto:" \o x.ek \o ":" \o CpsId(x.expr), sub |-> "to", ek |-> x.ek, expr |-> x.expr] : x \in ProtoToExprs}
 
 (* value of `literal` or `-literal` *)
@@ -430,7 +457,13 @@ JProtoTo(o) ==
       sig == "proto-precision|to|" \o cs.ek \o "|" \o (IF AnyFailure(outs) THEN FailKind(outs) ELSE step \o detail)
   IN [ok |-> good, sig |-> IF good THEN "" ELSE sig, want |-> IF pv.ok THEN Ok(<<v>>) ELSE [k |-> "any"]]
 
-JProto(o) == IF o.cs.sub = "from" THEN JProtoFrom(o) ELSE JProtoTo(o)
+(* o.from: system.From(element) *)
+JProtoScalar(o) ==
+  LET exp == SysOfScalar(o.cs.el)
+      good == ~IsFailure(o.from) /\ IsOne(o.from) /\ ValueSame(o.from.items[1], exp)
+  IN [ok |-> good, sig |-> IF good THEN "" ELSE "proto-precision|fromscalar|" \o o.cs.el.ek \o "|got-" \o KindOf(o.from), want |-> Ok(<<exp>>)]
+
+JProto(o) == IF o.cs.sub = "from" THEN JProtoFrom(o) ELSE IF o.cs.sub = "fromscalar" THEN JProtoScalar(o) ELSE JProtoTo(o)
 
 (***************************************************************************)
 (* Family 5: fhir-helpers (internal/fhir Parse*  and  fhirconv *ToString)  *)
@@ -570,6 +603,8 @@ NarrowCases ==
   \cup {RangeCase("fhirconv", F, T, -130, 258) : F \in FhirIntTypes, T \in IntTypes}
   \cup UNION {{PointCase("narrow", F, T, v) : T \in IntTypes, v \in {x \in BoundaryValues : Representable(x, F)}} : F \in IntTypes}
   \cup UNION {{PointCase("fhirconv", F, T, v) : T \in IntTypes, v \in {x \in BoundaryValues : Representable(x, BaseOf(F))}} : F \in FhirIntTypes}
+  \cup {RangeCase("fhirprim", F, "int32", -130, 258) : F \in {"int", "UnsignedInt", "PositiveInt"}}
+  \cup UNION {{PointCase("fhirprim", F, "int32", v) : v \in {x \in BoundaryValues : Representable(x, BaseOf(F))}} : F \in {"int", "UnsignedInt", "PositiveInt"}}
   \cup (IF NarrowWide
         THEN {c \in {RangeCase("narrow", F, T, ch[1], ch[2]) : F \in IntTypes, T \in {"int16", "uint16"}, ch \in Chunks16} : c.lo <= c.hi}
              \cup {c \in {RangeCase("fhirconv", F, T, ch[1], ch[2]) : F \in FhirIntTypes, T \in {"int16", "uint16"}, ch \in Chunks16} : c.lo <= c.hi}
